@@ -221,7 +221,9 @@ func (g *Gen) faultsOf(base *Body) []faultSpec {
 
 func (g *Gen) faultJobs() []Job {
 	var jobs []Job
-	styles := []namedStyle{{"default", DefaultStyle}, {"hash-comments+blank", Style{Indent: "  ", Eq: " = ", BlankLines: 1, Comments: CHashLines, ListLayout: 1}}}
+	styles := []namedStyle{{"default", DefaultStyle}, {"hash-comments+blank", Style{Indent: "  ", Eq: " = ", BlankLines: 1, Comments: CHashLines, ListLayout: 1}},
+		// comments that span lines: the place an error names is counted across them
+		{"block-comments", Style{Indent: "    ", Eq: " = ", Comments: CMultiBlock}}}
 	if g.Thorough {
 		styles = append(styles, namedStyle{"busy", busyStyle}, namedStyle{"compact", Style{Indent: "", Eq: "=", MapLayout: 2, NoFinalEOL: true}})
 	}
